@@ -324,6 +324,13 @@ class CallMixin(object):
       result = ops.fresh_val(rty, 'ret_' + c.name.rsplit('.', 1)[-1], st)
       if isinstance(result, VRef):
         ops.assume_type(result, st)
+        if rty.kind in ('set', 'dict', 'list', 'vtuple', 'obj'):
+          st.assume(st.heap.alloc(result.t))      # whatever a call returns exists afterwards
+      elif isinstance(result, VTuple):
+        for it in result.items:
+          if isinstance(it, VRef) and it.ty.kind in ('set', 'dict', 'list', 'vtuple', 'obj'):
+            ops.assume_type(it, st)
+            st.assume(st.heap.alloc(it.t))
       oldcx = SpecCtx(env, old_heap, st.pc, None, modinfo)
       env2 = dict(env)
       env2['result'] = result
@@ -525,6 +532,9 @@ class CallMixin(object):
         yield from self.list_method(base, meth, args, st)
         return
       if k == 'obj':
+        if self.contract is not None and ('method.' + meth) in self.contract.pure:
+          yield st, self.pure_app('method.' + meth, [base] + list(args), self.contract.pure['method.' + meth], st)
+          return
         q = self.world.find_method(base.ty.name, meth)
         if q is not None:
           yield from self.call_qualified(q, [base] + list(args), kw, st, self_val=base)
